@@ -120,7 +120,7 @@ type Commit struct {
 	// ReplyLost: the server took the message (it counts as accepted) but the connection went down before the
 	// 2yz reply left: Action{Kind: Drop, Code: 2yz} at DATA-END
 	ReplyLost bool `json:"reply_lost,omitempty"`
-	Complete bool     `json:"complete"` // terminating CRLF.CRLF was received
+	Complete  bool `json:"complete"` // terminating CRLF.CRLF was received
 }
 
 type Session struct {
